@@ -20,6 +20,12 @@ def mk(points, dim, sc=1.0):
     from tracklib.core.obs_coords import ENUCoords
     from tracklib.core.obs_time import ObsTime
     obs = []
+    if sc == 1.0 and (len(points) + dim) % 3 == 0:
+        # whole coordinates handed over as Python ints (ENUCoords(3, 4, 0) is what users write)
+        for k, pt in enumerate(points):
+            c = ENUCoords(k, -k, int(pt[0])) if dim == 1 else (ENUCoords(int(pt[0]), int(pt[1]), 7 * k) if dim == 2 else ENUCoords(int(pt[0]), int(pt[1]), int(pt[2])))
+            obs.append(Obs(c, ObsTime()))
+        return Track(obs)
     for k, pt in enumerate(points):
         if dim == 1:
             c = ENUCoords(float(k), float(-k), float(pt[0]) * sc)          # dim 1 uses the U component only
